@@ -324,8 +324,9 @@ def c19(ctx):
     t = ctx.tier
     g1 = gen(ctx, "BuildOrderGen.tla", "BuildOrderGen_n2.cfg", ctx.path("n2.ndjson"), what="all 2-source graphs")
     g2 = gen(ctx, "BuildOrderGen.tla", "BuildOrderGen_n3_%s.cfg" % t, ctx.path("n3.ndjson"), what="3-source graphs")
+    g3 = gen(ctx, "BuildOrderGen.tla", "BuildOrderGen_n3_fill3.cfg", ctx.path("n3f.ndjson"), what="3-source graphs, longer Build-Depends")
     r = hgen(ctx, "C19", ctx.path("rand.ndjson"))
-    judge(ctx, "C19", vf.cat(ctx.path("vec.ndjson"), g1, g2, r), what="OrderDSCForBuild vs graph model", chunk=1500)
+    judge(ctx, "C19", vf.cat(ctx.path("vec.ndjson"), g1, g2, g3, r), what="OrderDSCForBuild vs graph model", chunk=1500)
     ctx.exhaustive = True
 
 
@@ -372,7 +373,13 @@ def c18(ctx):
     judge(ctx, "C18", seq, what="totality, value xor error, determinism")
     # concurrent part: race-enabled build, stateful validation
     trace = ctx.path("conc-trace.ndjson")
-    out, raced = vf.harness_race(ctx, ["exec", "C18", conc, trace])
+    # several fresh processes: each one meets the library cold exactly once
+    raced, out = False, ""
+    for attempt in range(3 if ctx.tier == "quick" else 10):
+        o, r = vf.harness_race(ctx, ["exec", "C18", conc, trace])
+        raced, out = raced or r, out + o
+        if r:
+            break
     verdicts = validate(ctx, "C18Trace.tla", "C18Trace.cfg", trace, workers=2, what="goroutine events vs ParserCalls machine",
                         stateful_ev=("begin", "end"))
     absorb(ctx, trace, verdicts, replay_vector=lambda rec, get: json.loads(open(conc).readline()))
